@@ -1,7 +1,7 @@
 (* C07 - property theorems (statements only; the proofs live in Acme.C01.ProofsXxx / Acme.C07.ProofsXxx). *)
 From Coq Require Import ZArith List.
 From Acme.C01 Require Import Layout State Model ProofsLayout ProofsInv ProofsSpec ProofsAccept Refuted ProofsT1 Examples.
-From Acme.C07 Require Import Model Proofs ProofsReg ProofsFinal.
+From Acme.C07 Require Import Model Proofs ProofsReg ProofsFinal ProofsEffect.
 Import ListNotations.
 Open Scope Z_scope.
 
@@ -148,3 +148,64 @@ Print Assumptions d35_refuted.
 Theorem d35_grow_refuted : exists ops u g, ~ wf (mux_gsize (run ops) u) (group_view (run ops) u g).
 Proof. exact groups_full_refuted_d35_grow. Qed.
 Print Assumptions d35_grow_refuted.
+
+(* Effect (post-state) theorems. An accepted InsertSignal of a signal that was in no layout: afterwards the
+   signal is at the one requested position and - without group ids - in EVERY group, - with group ids - in
+   EXACTLY the listed groups; no other signal enters, leaves or moves. *)
+Theorem mux_insert_membership : forall s u x b gids, InvM s -> vmux s u = true -> ~ attached s x ->
+  is_ok (snd (step_mux_insert s u x b gids)) ->
+  let s' := fst (step_mux_insert s u x b gids) in
+  rel s' x = b
+  /\ (forall g, In x (gget s' u g) <->
+                (g < length (ugroups s u))%nat /\ (gids = nil \/ In (Z.of_nat g) gids))
+  /\ (forall g y, y <> x -> (In y (gget s' u g) <-> In y (gget s u g)))
+  /\ (forall y, y <> x -> rel s' y = rel s y).
+Proof. exact ProofsEffect.mux_insert_membership. Qed.
+Print Assumptions mux_insert_membership.
+
+(* the general form (also for further groups of a signal already in the multiplexer), with sizes, the other
+   multiplexers, the message layouts and the bookkeeping *)
+Theorem mux_insert_effect : forall s u x b gids, ugroups s u <> nil ->
+  is_ok (snd (step_mux_insert s u x b gids)) ->
+  let s' := fst (step_mux_insert s u x b gids) in
+  rel s' x = b
+  /\ (forall y, y <> x -> rel s' y = rel s y)
+  /\ (forall y, sz s' y = sz s y)
+  /\ (forall g y, In y (gget s' u g) <-> In y (gget s u g) \/ (y = x /\ named_group s u gids g))
+  /\ (forall u', u' <> u -> ugroups s' u' = ugroups s u')
+  /\ glay s' = glay s
+  /\ (gids = nil -> ufixed s' u x = true)
+  /\ memb x (usigs s' u) = true.
+Proof. exact ProofsEffect.mux_insert_effect. Qed.
+Print Assumptions mux_insert_effect.
+
+(* RemoveSignal: the signal is in no group of the multiplexer any more and not a member; nothing else changes *)
+Theorem mux_remove_effect : forall s u x, InvM s -> is_ok (snd (step_mux_remove s u x)) ->
+  let s' := fst (step_mux_remove s u x) in
+  rel s' = rel s
+  /\ (forall g y, In y (gget s' u g) <-> In y (gget s u g) /\ y <> x)
+  /\ (forall u', u' <> u -> ugroups s' u' = ugroups s u')
+  /\ glay s' = glay s
+  /\ ufixed s' u x = false /\ ugids s' u x = None /\ memb x (usigs s' u) = false.
+Proof. exact ProofsEffect.mux_remove_effect. Qed.
+Print Assumptions mux_remove_effect.
+
+(* ClearSignalGroup: the group keeps exactly its fixed signals; every other group is untouched *)
+Theorem mux_clear_group_effect : forall s u g, InvM s -> vmux s u = true -> is_ok (snd (step_mux_clear_group s u g)) ->
+  let s' := fst (step_mux_clear_group s u g) in
+  let n := Z.to_nat g in
+  rel s' = rel s /\ glay s' = glay s
+  /\ (forall u' k, u' <> u \/ k <> n -> gget s' u' k = gget s u' k)
+  /\ (forall y, In y (gget s' u n) <-> In y (gget s u n) /\ ufixed s u y = true).
+Proof. exact mux_clear_group_effect_f. Qed.
+Print Assumptions mux_clear_group_effect.
+
+(* ClearAllSignalGroups: every group is empty, no signal is fixed or grouped *)
+Theorem mux_clear_all_effect : forall s u,
+  let s' := fst (step_mux_clear_all s u) in
+  rel s' = rel s /\ glay s' = glay s
+  /\ (forall g, gget s' u g = nil)
+  /\ (forall u', u' <> u -> ugroups s' u' = ugroups s u')
+  /\ (forall x, ufixed s' u x = false /\ ugids s' u x = None).
+Proof. exact ProofsEffect.mux_clear_all_effect. Qed.
+Print Assumptions mux_clear_all_effect.
